@@ -227,6 +227,11 @@ def caseOnConst : Const → Option (Nat × List Value × Option Nat)
   | .pair _ _ x y => some (0, [.con x, .con y], some 1)
   | _ => none
 
+/-- `branches.len() > max_branches` -/
+def tooManyBranches : Option Nat → Nat → Bool
+  | some m, n => decide (n > m)
+  | none, _ => false
+
 def isCaseable : Const → Bool
   | .unit | .bool _ | .integer _ | .list _ _ | .pair _ _ _ _ => true
   | _ => false
@@ -294,10 +299,7 @@ def returnStep (cfg : Config) (a : Acct) (fr : Frame) (ctx : Ctx) (v : Value) : 
         match caseOnConst c with
         | none => .fail
         | some (tag, fields, maxBranches) =>
-          let tooMany : Bool := match maxBranches with
-            | some m => decide (branches.length > m)
-            | none => false
-          if tooMany then .fail
+          if tooManyBranches maxBranches branches.length then .fail
           else
             match branches[tag]? with
             | some t => .ok (a, .compute (transferArgStack fields ctx) env t)
